@@ -16,7 +16,7 @@ CFG = {
                  "Exhaustive sub-space: every digraph (self-loops included) on <= 3 templates with all edges of one kind "
                  "(extends / include in body / in block / in component body) and every extends-function x include-digraph on <= 2 "
                  "templates; the rest sampled (4-template digraphs, 3-template mixed graphs, random graphs up to 12 nodes, "
-                 "fallback-prefix configurations, block nestings across 2-3 inheritance levels). When several errors apply the "
+                 "fallback-prefix configurations, block nestings across 2-3 inheritance levels, long rings / chains / rings with a tail of 33, 40, 64 and 100 templates through include edges in body / block / component, extends edges, and include-extends alternation; accepted long chains are rendered too). When several errors apply the "
                  "comparison is membership in the set of applicable kinds.",
     "trusted_base": TB_COMMON + [
         "axioms: none (every C11 theorem is 'Closed under the global context')",
